@@ -29,7 +29,7 @@ import (
 // ---------------------------------------------------------------- terms
 
 type node struct {
-	kind string // B S M Z L I R F G A P C Y y
+	kind string // B S M Z L I O R F G A P C Y y
 	data []byte
 	a, b int64 // parameters (B: nbits or -1; S: off,n; Z: n; L: n; A: minRead; P: precision,total; G: size,seed)
 	kids []*node
@@ -67,7 +67,7 @@ func (n *node) length() int64 {
 		return n.a
 	case "L":
 		return min(n.a, n.kids[0].length())
-	case "I":
+	case "I", "O":
 		return n.kids[0].length() * 8
 	case "R", "F":
 		return int64(len(n.data))
@@ -166,6 +166,20 @@ func (b *built) build(n *node) any {
 		return bitio.NewLimitReader(b.build(n.kids[0]).(bitio.Reader), n.a)
 	case "I":
 		return bitio.NewIOBitReadSeeker(b.build(n.kids[0]).(io.ReadSeeker))
+	case "O":
+		// the reader stack of interp._open (pkg/interp/binary.go:247-289) over a regular file, constructor for
+		// constructor; the Lean driver builds the same term from the constants REGENERATED from the source
+		// (extract/c01consts), so a changed constant shows up as a divergence
+		var fRS io.ReadSeeker = b.build(n.kids[0]).(io.ReadSeeker)
+		bEnd := n.kids[0].length()
+		ctx, cancel := context.WithCancel(context.Background())
+		b.cleanup = append(b.cleanup, cancel)
+		fRS = ctxreadseeker.New(ctx, fRS)
+		const progressPrecision = 1024
+		fRS = progressreadseeker.New(fRS, progressPrecision, bEnd, func(approxReadBytes int64, totalSize int64) {})
+		const cacheReadAheadSize = 512 * 1024
+		aheadRs := aheadreadseeker.New(fRS, cacheReadAheadSize)
+		return bitio.NewIOBitReadSeeker(aheadRs)
 	case "R":
 		return bytes.NewReader(n.data)
 	case "F":
@@ -230,7 +244,7 @@ func parseTerm(ws []string) (*node, []string) {
 	case "L", "A":
 		n.a = num()
 		sub()
-	case "I", "C", "Y", "y":
+	case "I", "C", "Y", "y", "O":
 		sub()
 	case "R", "F":
 		n.data = hlib.UnHex(ws[0])
@@ -635,12 +649,12 @@ func boundaries(t *node) []int64 {
 			s += k.length()
 			bs = append(bs, s)
 		}
-	case "S", "L", "Y", "y", "A", "P", "C", "I":
+	case "S", "L", "Y", "y", "A", "P", "C", "I", "O":
 		for _, b := range boundaries(t.kids[0]) {
 			switch t.kind {
 			case "S":
 				b -= t.a
-			case "I":
+			case "I", "O":
 				b *= 8
 			case "Y", "y":
 				b /= 8
@@ -870,11 +884,7 @@ func bnode(data []byte, nbits int64) *node { return &node{kind: "B", data: data,
 
 // the exact reader stack of interp._open (pkg/interp/binary.go:247-289) over a file with this content
 func interpStack(leaf *node) *node {
-	size := leaf.length()
-	return &node{kind: "I", kids: []*node{
-		{kind: "A", a: 512 * 1024, kids: []*node{
-			{kind: "P", a: 1024, b: size, kids: []*node{
-				{kind: "C", kids: []*node{leaf}}}}}}}}
+	return &node{kind: "O", kids: []*node{leaf}}
 }
 
 // for every leaf and one-level wrapper: readAt(off, n) for all off within 2 bytes of every boundary, n in 0..80
